@@ -347,8 +347,13 @@ func mouseCases(g *rig) {
 		g.freshModel(modes)
 		for _, btn := range buttons {
 			for _, ty := range types {
-				for row := 0; row < 3; row++ {
-					for col := 0; col < 3; col++ {
+				// positions: the first cells, and the values around the limits of the one-byte legacy
+				// encoding (222/223) and of a byte (254..256), which SGR reports must carry unchanged
+				for _, row := range []int{0, 1, 2, 222, 223, 300} {
+					for _, col := range []int{0, 1, 2, 94, 222, 223, 255, 256, 1000} {
+						if (row > 2 || col > 2) && !m1006 {
+							continue // the legacy encoding cannot express them; its behaviour there is not specified
+						}
 						ev := vaxis.Mouse{Button: btn, Row: row, Col: col, EventType: ty}
 						g.m.Update(ev)
 						b := g.written()
